@@ -23,6 +23,11 @@ __all__ = [
 ]
 
 
+def _kind_key(kind):
+    # Kinds given as plain strings compare and hash like the equivalent symbol
+    return StrCompareMixin._canonical(kind) if isinstance(kind, str) else kind
+
+
 class _Literal(pmbl.Leaf):
     """
     Base class for literals.
@@ -62,11 +67,11 @@ class FloatLiteral(StrCompareMixin, _Literal):
         super().__init__(**kwargs)
 
     def __hash__(self):
-        return hash((self.value, self.kind))
+        return hash((self.value, _kind_key(self.kind)))
 
     def __eq__(self, other):
         if isinstance(other, FloatLiteral):
-            return self.value == other.value and self.kind == other.kind
+            return self.value == other.value and _kind_key(self.kind) == _kind_key(other.kind)
 
         try:
             return float(self.value) == float(other)
@@ -134,11 +139,11 @@ class IntLiteral(StrCompareMixin, _Literal):
         super().__init__(**kwargs)
 
     def __hash__(self):
-        return hash((self.value, self.kind))
+        return hash((self.value, _kind_key(self.kind)))
 
     def __eq__(self, other):
         if isinstance(other, IntLiteral):
-            return self.value == other.value and self.kind == other.kind
+            return self.value == other.value and _kind_key(self.kind) == _kind_key(other.kind)
         if isinstance(other, (int, float, complex)):
             return self.value == other
 
